@@ -34,6 +34,7 @@ struct FeedResult {
     size_t delivered_at_first_flush = 0;
     size_t max_msgs_in_call = 0;
     bool remainder_after_call = false;
+    size_t pending_after_flush = 0;   // bytes still buffered right after a zero-length call (must be 0)
 };
 
 // deliver the stream in chunks given by `cuts` (cyclic); cuts empty = one byte per call
@@ -73,6 +74,7 @@ FeedResult feed(World &w, const Feed &f, const std::vector<long> &cuts, bool sto
                 r.first_flush_call = (int) w.calls.size();
             }
             w.flush_input();
+            r.pending_after_flush = std::max(r.pending_after_flush, (size_t) w.ctx->buffer.position);
         }
     }
     return r;
@@ -221,6 +223,11 @@ void execute_c08(const Plan &plan, Verdict &v) {
             uint64_t sig = 0;
             for (auto &c : S.calls) sig = mix64(sig + (uint64_t) c.len * 31 + (uint64_t) c.n_msgs);
             g_sets.add("interleaving", sig ^ fnv1a(f.stream));
+        }
+        if (fs.pending_after_flush || fr.pending_after_flush) {
+            v.fail("flush-not-consumed", "pending", fmt("a zero-length call left %zu bytes buffered: it must execute whatever is buffered as a complete message",
+                                                        std::max(fs.pending_after_flush, fr.pending_after_flush)));
+            break;
         }
         if (fs.stalled) {
             v.fail("pending-differs", fmt("at=%zu", fs.stalled_at),
@@ -520,7 +527,7 @@ void generate_c09(Rng &r, const GenOpts &g, Plan &p) {
                                        {"ECHO? 1,\"s\",#12ab", "TEST:ECHO? 1,\"s\",#12ab"}, {"INT32? 42", ":TEST:INT32? 42"}, {"OPT?", "TEST:OPT?"},
                                        {"OPT? 5", "TEST:OPT? 5"},        {"TEXT? 'q'", "TEST:TEXT? 'q'"},          {"ARB? #13xyz", "TEST:ARB? #13xyz"},
                                        {"INT32?", "TEST:INT32?"},        {"PART 1,2", "TEST:PART 1,2"},            {"FAIL?", "TEST:FAIL?"},
-                                       {"NUMB? 10 V", "TEST:NUMB? 10 V"}, {"*IDN?", "*IDN?"},                      {":STUB?", "STUB?"}};
+                                       {"NUMB? 10 V", "TEST:NUMB? 10 V"}, {"BLKD?", "TEST:BLKD?"}, {"*IDN?", "*IDN?"},                      {":STUB?", "STUB?"}};
         p.knob["unit_mode"] = 1;
         size_t k = r.below(sizeof u2s / sizeof u2s[0]);
         p.ops.push_back(Op("u1", {}, u1s[r.below(sizeof u1s / sizeof u1s[0])]));
